@@ -26,7 +26,7 @@ import time
 THEOREMS = ["IstioModel.C16.MonitorTheorems", "IstioModel.C16.RuntimeTheorems", "IstioModel.C16.IndexTheorems",
             "IstioModel.C16.JoinTheorems", "IstioModel.C16.DisciplineTheorems",
             "IstioModel.C16.JoinModelTheorems", "IstioModel.C16.Registration", "IstioModel.C16.GenTie",
-            "IstioModel.C16.IndexGenTheorems", "IstioModel.C16.JoinInflight", "IstioModel.C16.JoinStart"]
+            "IstioModel.C16.IndexGenTheorems", "IstioModel.C16.JoinInflight", "IstioModel.C16.JoinStart", "IstioModel.C16.StaticTheorems"]
 GEN = "IstioModel/Generated/C16RegFacts.lean"
 
 F6_FP = "krt:many:key-moves-between-parents:new-parent-first"
@@ -478,8 +478,9 @@ def run(ctx):
         "krt.NewStatic singletons are changed and subscribed to sequentially from one goroutine (Set calls the handlers inline; "
         "its registration is not atomic with Set by design)",
         "WithObjectAugmentation is exercised with the identity function only",
-        "exact: the queue is held (pause ... resume) only for transformations without key / index atoms (with them krt's reverse "
-        "index recomputes a superset of inputs earlier than the model's full scan: same contents, other event timing)",
+        "exact: when the queue is held (pause ... resume) for a transformation with key / index atoms (cases flagged hk) the "
+        "EVENTS of the held block are not compared, its contents are (krt's reverse index recomputes a superset of inputs "
+        "earlier than the model's full scan: same contents, other event timing); all other steps are compared event by event",
     ]
     ctx.trusted += [
         "harness/c16/facts.go (go/ast extractor of the lock facts: registration_under_lock, registration_one_critical_section, "
@@ -664,14 +665,20 @@ MANIFEST = {
                    "the witnesses of finding F10. (4) The contents clause is specContents / joinContents / mergeContents ..., "
                    "recomputed in Lean for every observation of List/GetKey/Index.Lookup on real krt collections and evaluated a "
                    "second time in Go (oracles on every stream but the two model streams); both runtime models and the index "
-                   "functions of late_index_correct are compared with the real collections step by step (streams exact, joinx)."),
+                   "functions of late_index_correct are compared with the real collections step by step (streams exact, joinx). "
+                   "(5) For an executable model of the static collection (UpdateObject, ConditionalUpdateObject, DeleteObject(s), "
+                   "Reset incl. a key twice): the distributed stream is well formed and replays to the contents after any "
+                   "sequence of changes, also for a late subscriber (static_exact, static_late_subscriber); the model runs in "
+                   "the krt driver and every recorded stream of the primary collection must equal the model's, per key event "
+                   "by event (pstream model-differs otherwise)."),
     "level_note": ("Partial: the real goroutine scheduling of krt is observed (random histories on real collections, exact "
                    "quiescence through a testing/synctest bubble; cases that depend on the schedule are re-run under contention), "
                    "not proved; the runtime models process a batch atomically and have one delivered stream. Anchors WITHOUT a "
                    "Lean runtime model or theorem (specification + verified monitor on real executions + Go oracle only): "
                    "processor.go (per-handler queues, pop/run, sync tracker - only the Insert/Distribute call sites are in the "
                    "source tie), the reverse index indexedDependencies of changedInputKeys (the model has the full scan it "
-                   "pre-filters), mergejoin.go, nestedjoinmerge.go, singleton.go (NewStatic, NewSingleton, NewManyFromNothing), "
+                   "pre-filters), mergejoin.go, nestedjoinmerge.go, singleton.go (NewStatic, NewSingleton, NewManyFromNothing; static.go now HAS a "
+                   "model: StaticModel.lean), "
                    "informer.go, index.AsCollection, files.go. Trusted: Lean kernel + {propext, Classical.choice, Quot.sound}; "
                    "the Go harness and its interpreter of the shared Transform description; the barrier discipline bookkeeping "
                    "(implemented twice, Go and Lean, compared); the go/ast fact extractor. Outside: RecomputeTrigger; "
